@@ -12,7 +12,7 @@
       reference bytes), which is the order [Pins] lists them in.
 
     - THE CODE MODELLED IS THE REPAIRED pinning.go
-      (proposed/C15/fix-pin-root-guard.patch): [CreatePin] with traversal and
+      (proposed/C15/fix-createpin-repeat.patch, fix-deletepin-repeat.patch): [CreatePin] with traversal and
       [DeletePin] look the root key up first and do nothing when the call
       would repeat an earlier one.
 
